@@ -52,6 +52,14 @@ def env0 : Env :=
                   levels := [ { cls := "ns.U", tags := [td "pub" none, td "hid" (some "c"),
                     { name := "st", ty := .struct {} "ns.S", omitted := none }] } ] } ] }
 
+/-- a struct with a public field and a public field carrying a redactor -/
+def envT : Env :=
+  { structs := [ { cls := "ns.T", subtypes := none, catchAll := false,
+                   levels := [ { cls := "ns.T", fields := [fd "a" none,
+                     { name := "pw", ty := .str { redactInner := some (.blot none) } none none none,
+                       attrNullable := false, attrUserDefined := false, dflt := none, omitted := none }] } ] } ],
+    unions := [] }
+
 def sS : StructDef :=
   { cls := "ns.S", subtypes := none, catchAll := false,
     levels := [ { cls := "ns.S", fields := [fd "a" none, fd "sec" (some "c")] } ] }
@@ -62,6 +70,26 @@ def vRS : PyVal := .struct "ns.RS" [("r", .str "x"), ("q", .str "y"), ("rsec", .
 def keysOf : R JVal → Option (List String)
   | .ok (.obj kvs) => some (kvs.map (·.1))
   | _ => none
+
+mutual
+/-- every string of a JSON document (keys and string values), in order: a decidable view of it -/
+def leaves : JVal → List String
+  | .str s => [s]
+  | .arr xs => "[" :: leavesL xs
+  | .obj kvs => "{" :: leavesK kvs
+  | .null => ["null"]
+  | _ => ["?"]
+def leavesL : List JVal → List String
+  | [] => ["]"]
+  | x :: xs => leaves x ++ leavesL xs
+def leavesK : List (String × JVal) → List String
+  | [] => ["}"]
+  | (k, x) :: rest => k :: leaves x ++ leavesK rest
+end
+
+def leavesR : R JVal → Option (List String)
+  | .ok j => some (leaves j)
+  | .error _ => none
 
 def isVerrR {α} : R α → Bool
   | .error (.verr _) => true
@@ -430,5 +458,212 @@ theorem present_with_perm_tree (E : Ext) (env : Env) (perms : List String) (reda
 caller holding "c"); the hypotheses on the slot: -/
 example : lookupSlot "sec" [("a", PyVal.str "x"), ("sec", .str "y")] = some (.str "y") ∧
     isNone (.str "y") = false := ⟨by simp [lookupSlot], rfl⟩
+
+/-! ### 6. Redaction
+
+Fields, list items and map values are all encoded by recursive calls of `encode` at the member's
+validator, and a redactor (given directly or through an alias) sits in the flags of that validator,
+so the statements below, quantified over every type `t` and value `v`, apply to every position of an
+encoding at any nesting depth. -/
+
+/-- **Redaction on the outermost validator object.** With redaction requested, when the outermost
+validator object carries a redactor (the `Nullable` wrapper when there is one, else the object
+itself) the result of `encode` *is* the redaction of the value: nothing is validated and no
+clear-text branch is taken. -/
+theorem redacted_outer (E : Ext) (env : Env) (perms : List String) (norm : Bool) (t : PTy) (v : PyVal)
+    (r : Redactor)
+    (hr : (t.flags.nullable = true ∧ t.flags.redactOuter = some r) ∨
+          (t.flags.nullable = false ∧ t.flags.redactInner = some r)) :
+    encode E env perms true norm t v = redactValue E r v := by
+  apply encode_redact_outer
+  rcases hr with ⟨hn, h⟩ | ⟨hn, h⟩ <;> simp [PTy.outerRedactor, hn, h]
+
+/-- **Redactor on the object wrapped by a Nullable.** A value other than None that passes the
+Nullable validation is replaced by its redaction. -/
+theorem redacted_inner (E : Ext) (env : Env) (perms : List String) (norm : Bool) (t : PTy) (v w : PyVal)
+    (r : Redactor) (hn : t.flags.nullable = true) (ho : t.flags.redactOuter = none)
+    (hi : t.flags.redactInner = some r) (hv : isNone v = false) (hval : validate E env t v = .ok w) :
+    encode E env perms true norm t v = redactValue E r v :=
+  encode_redact_inner E env perms norm t v w r hn ho hi hv hval
+
+/-- **No clear-text path.** Whatever the value, at a type carrying a redactor (on the wrapper or on the
+wrapped object) `encode` with redaction requested yields the redaction of the value, `null` for None,
+or the validation error of the Nullable wrapper: the clear-text branches are unreachable. -/
+theorem redacted_never_clear (E : Ext) (env : Env) (perms : List String) (norm : Bool) (t : PTy) (v : PyVal)
+    (r : Redactor) (hr : t.topRedactor = some r) :
+    encode E env perms true norm t v = redactValue E r v ∨
+    (isNone v = true ∧ encode E env perms true norm t v = .ok .null) ∨
+    ∃ e, validate E env t v = .error e ∧ encode E env perms true norm t v = .error e :=
+  encode_redact_top E env perms norm t v r hr
+
+/-- the clear text "hunter2" is replaced: mask for blot, `E.md5` of it for hash (here the constant "md5") -/
+example :
+    Ex.leavesR (encode Ex.E0 Ex.env0 [] true false (.str { redactInner := some (.blot none) } none none none)
+      (.str "hunter2")) = some ["********"] ∧
+    Ex.leavesR (encode Ex.E0 Ex.env0 [] true false
+      (.str { nullable := true, redactOuter := some (.hash none) } none none none) (.str "hunter2")) = some ["md5"] ∧
+    Ex.leavesR (encode Ex.E0 Ex.env0 [] true false
+      (.str { nullable := true, redactInner := some (.blot none) } none none none) (.str "hunter2"))
+      = some ["********"] ∧
+    Ex.leavesR (encode Ex.E0 Ex.env0 [] false false (.str { redactInner := some (.blot none) } none none none)
+      (.str "hunter2")) = some ["hunter2"] := by decide +kernel
+
+/-- **Redacted struct fields.** In the object encoded for a struct value with redaction requested, the
+JSON stored under the name of a field whose validator carries a redactor is the redaction of the
+value of that slot. -/
+theorem redacted_field (E : Ext) (env : Env) (perms : List String) (norm : Bool) (fl : Flags)
+    (cls c' : String) (slots : List (String × PyVal)) (kvs : List (String × JVal)) (s : StructDef)
+    (hs : env.struct? cls = some s)
+    (h : encode E env perms true norm (.struct fl cls) (.struct c' slots) = .ok (.obj kvs))
+    (k : String) (j : JVal) (hkj : (k, j) ∈ kvs) (r : Redactor)
+    (hr : ∀ g ∈ s.fieldsFor perms, g.name = k → g.ty.topRedactor = some r) :
+    ∃ x, (k, x) ∈ slots ∧ redactValue E r x = .ok j := by
+  rcases encode_struct_inv h with ⟨_, r', hrv⟩ | ⟨_, _, hj⟩ | ⟨c3, slots3, s', kvs3, hvv, hs', ha, hj⟩
+  · obtain ⟨d, hd⟩ := redactValue_obj_dict hrv
+    cases hd
+  · cases hj
+  · cases hvv
+    cases hj
+    rw [hs] at hs'
+    cases hs'
+    exact redacted_field_entry E env perms _ _ _ ha k j hkj r hr
+
+/-- **Redacted list items.** When the item validator carries a redactor on its outermost object, the
+encoded items are the redactions of the items, one for one. -/
+theorem redacted_list_items (E : Ext) (env : Env) (perms : List String) (item : PTy) (r : Redactor)
+    (hr : item.outerRedactor = some r) (xs : List PyVal) :
+    encodeList E env perms true item xs = xs.mapM (redactValue E r) :=
+  encodeList_redacted E env perms item r hr xs
+
+/-- **Redacted map values.** When the value validator carries a redactor on its outermost object,
+every value of the encoded map is the redaction of a value of the dictionary. -/
+theorem redacted_map_values (E : Ext) (env : Env) (perms : List String) (kt vt : PTy) (r : Redactor)
+    (hr : vt.outerRedactor = some r) (kvs : List (PyVal × PyVal)) (out : List (String × JVal))
+    (h : encodeDict E env perms true kt vt kvs = .ok out) :
+    out.length = kvs.length ∧ ∀ kj ∈ out, ∃ kx ∈ kvs, redactValue E r kx.2 = .ok kj.2 :=
+  encodeDict_values_redacted E env perms kt vt r hr kvs out h
+
+/-- a list of lists of redacted strings, and a map with redacted values, inside out -/
+example :
+    Ex.leavesR (encode Ex.E0 Ex.env0 [] true false
+      (.list {} (.list {} (.str { redactInner := some (.blot none) } none none none) none none) none none)
+      (.list [.list [.str "s1", .str "s2"], .list []]))
+      = some ["[", "[", "********", "********", "]", "[", "]", "]"] ∧
+    Ex.leavesR (encode Ex.E0 Ex.env0 [] true false
+      (.map {} (.str {} none none none) (.str { redactInner := some (.hash none) } none none none))
+      (.dict [(.str "k", .str "s1")]))
+      = some ["{", "k", "md5", "}"] := by decide +kernel
+
+/-- a struct with a redacted field: the field's value is masked, its neighbour is not -/
+example :
+    Ex.leavesR (encode Ex.E0 Ex.envT [] true false (.struct {} "ns.T")
+      (.struct "ns.T" [("a", .str "x"), ("pw", .str "hunter2")]))
+      = some ["{", "a", "x", "pw", "********", "}"] := by decide +kernel
+
+/-- **What the redaction is, `BlotRedactor` without a regex**: the mask, whatever the value; a list
+becomes a list of masks of the same length, a string-keyed dict keeps its keys and masks every
+value. -/
+theorem redactValue_blot_noregex (E : Ext) (v : PyVal) :
+    (∀ xs, v = .list xs → redactValue E (.blot none) v = .ok (.arr (List.replicate xs.length blotMask))) ∧
+    (∀ kvs out, v = .dict kvs → redactValue E (.blot none) v = .ok out →
+        ∃ o, out = .obj o ∧ o.length = kvs.length ∧ ∀ kj ∈ o, kj.2 = blotMask ∧ ∃ x, (PyVal.str kj.1, x) ∈ kvs) ∧
+    ((∀ xs, v ≠ .list xs) → (∀ kvs, v ≠ .dict kvs) → redactValue E (.blot none) v = .ok blotMask) := by
+  refine ⟨?_, ?_, ?_⟩
+  · rintro xs rfl
+    simp only [redactValue, Except.ok.injEq, JVal.arr.injEq]
+    induction xs with
+    | nil => rfl
+    | cons x xs ih => simp [List.replicate_succ, redactApply_blot_none, ih]
+  · rintro kvs out rfl h
+    simp only [redactValue] at h
+    cases hd : redactDict E (.blot none) kvs with
+    | error e => simp [hd, Except.map] at h
+    | ok o =>
+      simp only [hd, Except.map, Except.ok.injEq] at h
+      obtain ⟨hl, hv⟩ := redactDict_values E _ kvs o hd
+      refine ⟨o, h.symm, hl, ?_⟩
+      intro kj hkj
+      obtain ⟨x, hx, he⟩ := hv kj hkj
+      exact ⟨by rw [he, redactApply_blot_none], x, hx⟩
+  · intro hl hd
+    unfold redactValue
+    split
+    · exact absurd rfl (hl _)
+    · exact absurd rfl (hd _)
+    · rw [redactApply_blot_none]
+
+example : blotMask = .str "********" := rfl
+
+/-- `BlotRedactor` with a regex on a string: the groups `re.search` returns joined by "***" when the
+regex is non-empty and matches, the mask otherwise. The clear text enters only through `E.reSearch`. -/
+theorem redactApply_blot_regex (E : Ext) (re s : String) :
+    redactApply E (.blot (some re)) (.str s) =
+      if re = "" then blotMask else
+      match E.reSearch re s with
+      | some gs => .str (joinStars gs)
+      | none => blotMask := by
+  by_cases h : re = ""
+  · simp [redactApply, redactMatches, h, blotMask]
+  · simp only [redactApply, redactMatches, h, if_false, beq_iff_eq]
+    cases E.reSearch re s <;> rfl
+
+/-- anything but a string is masked whatever the regex -/
+theorem redactApply_blot_nonstring (E : Ext) (re : Option String) (v : PyVal) (hv : ∀ s, v ≠ .str s) :
+    redactApply E (.blot re) v = blotMask := by
+  cases re with
+  | none => exact redactApply_blot_none E v
+  | some re =>
+    cases v <;> first | exact absurd rfl (hv _) | rfl
+
+/-- **`HashRedactor` without a regex** on a string is the hash of it: the clear text enters only
+through `E.md5`. Numbers and booleans are hashed through their `str()`, anything else becomes null. -/
+theorem redactApply_hash_noregex (E : Ext) (s : String) :
+    redactApply E (.hash none) (.str s) = .str (E.md5 s) := by
+  simp [redactApply, redactMatches]
+
+theorem redactApply_hash_noregex_other (E : Ext) (v : PyVal) :
+    redactApply E (.hash none) v = (match v with
+      | .str s => .str (E.md5 s)
+      | .int n => .str (E.md5 (E.strOfInt n))
+      | .bool b => .str (E.md5 (if b then "True" else "False"))
+      | .flt x => .str (E.md5 (E.strOfFlt x))
+      | _ => .null) := by
+  cases v <;> simp [redactApply, redactMatches]
+
+/-- `HashRedactor` with a regex on a string: the hash, followed by the matched groups in parentheses
+when the regex is non-empty and matches. -/
+theorem redactApply_hash_regex (E : Ext) (re s : String) :
+    redactApply E (.hash (some re)) (.str s) =
+      if re = "" then .str (E.md5 s) else
+      match E.reSearch re s with
+      | some gs => .str (E.md5 s ++ " (" ++ joinStars gs ++ ")")
+      | none => .str (E.md5 s) := by
+  by_cases h : re = ""
+  · simp [redactApply, redactMatches, h]
+  · simp only [redactApply, redactMatches, h, if_false, beq_iff_eq, Option.map_some]
+    cases E.reSearch re s <;> rfl
+
+/-- a matching regex keeps the groups only -/
+example : Ex.leaves (redactApply { Ex.E0 with reSearch := fun _ _ => some ["ab", "yz"] }
+    (.blot (some "(..).*(..)")) (.str "abcdxyz")) = ["ab***yz"] := by decide +kernel
+
+/-! ### 7. The redaction branch does not crash -/
+
+/-- On values whose dictionaries are string-keyed (all that the model covers) the redaction of a value
+is a JSON value, never an escaping exception. -/
+theorem redaction_no_crash (E : Ext) (r : Redactor) (v : PyVal) (h : stringKeyed v = true) :
+    ∃ j, redactValue E r v = .ok j :=
+  redactValue_ok_of_stringKeyed E r v h
+
+/-- so at a type with a redactor on its outermost validator object, `encode` with redaction requested
+succeeds on every string-keyed value -/
+theorem redacted_outer_ok (E : Ext) (env : Env) (perms : List String) (norm : Bool) (t : PTy) (v : PyVal)
+    (r : Redactor) (hr : t.outerRedactor = some r) (h : stringKeyed v = true) :
+    ∃ j, encode E env perms true norm t v = .ok j := by
+  rw [encode_redact_outer E env perms norm t v r hr]
+  exact redactValue_ok_of_stringKeyed E r v h
+
+example : stringKeyed (.dict [(.str "k", .int 1)]) = true ∧ stringKeyed (.dict [(.int 1, .int 1)]) = false ∧
+    stringKeyed (.list [.dict [(.int 1, .int 1)]]) = true := by decide
 
 end StoneVerif.C13
